@@ -401,7 +401,11 @@ func Walk(ast Ast, Visit func(Ast) bool) {
 		for _, arg := range node.Kwonlyargs {
 			walk(arg)
 		}
-		walkExprs(node.KwDefaults)
+		for _, expr := range node.KwDefaults {
+			if expr != nil { // nil for a keyword only argument without a default
+				walk(expr)
+			}
+		}
 		if node.Kwarg != nil {
 			walk(node.Kwarg)
 		}
